@@ -13,3 +13,15 @@ func (s *storage) checkRelationTarget(target Entity) {
 		panic("can't use a dead entity as relation target, except for the zero entity")
 	}
 }
+
+// checkRelationsOf checks relations given for an archetype that does not exist yet, before it is created:
+// a request that is rejected for its relations must not leave an archetype without tables behind.
+func (s *storage) checkRelationsOf(mask *bitMask, relations []relationID) {
+	for i := range relations {
+		id := relations[i].component
+		s.checkRelationComponent(id)
+		if !mask.Get(id.id) {
+			panic(fmt.Sprintf("relation component with ID %d is not among the components of the entity", id.id))
+		}
+	}
+}
